@@ -73,6 +73,41 @@ pub enum AsmMnemonic {
     NOP,
 }
 
+impl AsmMnemonic {
+    /// True when the instruction sets both N and Z whatever they were before
+    fn defines_nz(&self) -> bool {
+        matches!(
+            self,
+            AsmMnemonic::LDA
+                | AsmMnemonic::LDX
+                | AsmMnemonic::LDY
+                | AsmMnemonic::TAX
+                | AsmMnemonic::TAY
+                | AsmMnemonic::TXA
+                | AsmMnemonic::TYA
+                | AsmMnemonic::ADC
+                | AsmMnemonic::SBC
+                | AsmMnemonic::EOR
+                | AsmMnemonic::AND
+                | AsmMnemonic::ORA
+                | AsmMnemonic::LSR
+                | AsmMnemonic::ASL
+                | AsmMnemonic::ROL
+                | AsmMnemonic::ROR
+                | AsmMnemonic::CMP
+                | AsmMnemonic::CPX
+                | AsmMnemonic::CPY
+                | AsmMnemonic::INC
+                | AsmMnemonic::INX
+                | AsmMnemonic::INY
+                | AsmMnemonic::DEC
+                | AsmMnemonic::DEX
+                | AsmMnemonic::DEY
+                | AsmMnemonic::PLA
+        )
+    }
+}
+
 impl fmt::Display for AsmMnemonic {
     fn fmt(&self, f: &mut fmt::Formatter) -> fmt::Result {
         fmt::Debug::fmt(self, f)
@@ -581,9 +616,21 @@ impl AssemblyCode {
                                 }
                             }
                             if let Some(v) = &x_register {
-                                if v.eq(&inst.dasm_operand) && flags == FlagsState::X {
-                                    // Remove this instruction: X holds the value and N/Z describe it
-                                    remove_second = !inst.protected;
+                                if v.eq(&inst.dasm_operand) {
+                                    // X holds the value. The load can go when N/Z describe X
+                                    // already, or when the next instruction redefines them
+                                    let flags_dead = loop {
+                                        match iter.peek() {
+                                            Some(AsmLine::Instruction(i1)) => {
+                                                break i1.mnemonic.defines_nz()
+                                            }
+                                            Some(AsmLine::Comment(_)) | Some(AsmLine::Dummy) => (),
+                                            _ => break false,
+                                        }
+                                    };
+                                    if flags == FlagsState::X || flags_dead {
+                                        remove_second = !inst.protected;
+                                    }
                                 }
                             }
                             x_register = Some(inst.dasm_operand.clone());
@@ -601,9 +648,21 @@ impl AssemblyCode {
                                 }
                             }
                             if let Some(v) = &y_register {
-                                if v.eq(&inst.dasm_operand) && flags == FlagsState::Y {
-                                    // Remove this instruction: Y holds the value and N/Z describe it
-                                    remove_second = !inst.protected;
+                                if v.eq(&inst.dasm_operand) {
+                                    // Y holds the value. The load can go when N/Z describe Y
+                                    // already, or when the next instruction redefines them
+                                    let flags_dead = loop {
+                                        match iter.peek() {
+                                            Some(AsmLine::Instruction(i1)) => {
+                                                break i1.mnemonic.defines_nz()
+                                            }
+                                            Some(AsmLine::Comment(_)) | Some(AsmLine::Dummy) => (),
+                                            _ => break false,
+                                        }
+                                    };
+                                    if flags == FlagsState::Y || flags_dead {
+                                        remove_second = !inst.protected;
+                                    }
                                 }
                             }
                             y_register = Some(inst.dasm_operand.clone());
@@ -659,6 +718,7 @@ impl AssemblyCode {
                             y_register = None;
                         }
                         AsmMnemonic::TAX => {
+                            flags = FlagsState::A;
                             x_register = accumulator.clone();
                             if let Some(v) = &accumulator {
                                 if v.ends_with(",X") {
@@ -673,6 +733,7 @@ impl AssemblyCode {
                             }
                         }
                         AsmMnemonic::TAY => {
+                            flags = FlagsState::A;
                             y_register = accumulator.clone();
                             if let Some(v) = &accumulator {
                                 if v.ends_with(",Y") {
@@ -688,9 +749,11 @@ impl AssemblyCode {
                         }
                         AsmMnemonic::TXA => {
                             accumulator = x_register.clone();
+                            flags = FlagsState::A;
                         }
                         AsmMnemonic::TYA => {
                             accumulator = y_register.clone();
+                            flags = FlagsState::A;
                         }
                         AsmMnemonic::STA | AsmMnemonic::STX | AsmMnemonic::STY => {
                             if let Some(v) = &accumulator {
@@ -713,10 +776,14 @@ impl AssemblyCode {
                         | AsmMnemonic::SBC
                         | AsmMnemonic::EOR
                         | AsmMnemonic::AND
-                        | AsmMnemonic::ORA => accumulator = None,
+                        | AsmMnemonic::ORA => {
+                            accumulator = None;
+                            flags = FlagsState::A;
+                        }
                         AsmMnemonic::LSR | AsmMnemonic::ASL | AsmMnemonic::ROL | AsmMnemonic::ROR => {
                             if inst.dasm_operand.is_empty() {
                                 accumulator = None;
+                                flags = FlagsState::A;
                             } else {
                                 // Shift/rotate of a memory cell: same as INC/DEC
                                 flags = FlagsState::Unknown;
@@ -737,7 +804,12 @@ impl AssemblyCode {
                                 }
                             }
                         }
-                        AsmMnemonic::PLA | AsmMnemonic::PHA => accumulator = None,
+                        AsmMnemonic::PHA => accumulator = None,
+                        AsmMnemonic::PLA => {
+                            accumulator = None;
+                            flags = FlagsState::A;
+                        }
+                        AsmMnemonic::PLP => flags = FlagsState::Unknown,
                         AsmMnemonic::JSR | AsmMnemonic::JMP => {
                             accumulator = None;
                             x_register = None;
